@@ -216,6 +216,15 @@ class Extent(object):
             for _, a in kws:
                 self._arg(a, v[1] if t != "fcall" else v[2], v)
             return OTHER
+        if t == "comp" and len(v) == 5:
+            # a comprehension is as wide as what it yields; its iterable is visited for its own accesses only
+            if isinstance(v[3], tuple):
+                self.ext(v[3])
+            return self.ext(v[2]) if isinstance(v[2], tuple) else OTHER
+        if (t == "item" and len(v) == 3 and isinstance(v[1], tuple) and v[1][:1] == ("elem",) and isinstance(v[1][1], tuple) and v[1][1][:1] == ("comp",)
+                and isinstance(v[1][1][2], tuple) and v[1][1][2][:1] == ("tuple",) and isinstance(v[2], int) and 0 <= v[2] < len(v[1][1][2]) - 1):
+            # one component of the tuples a comprehension builds: classified on its own (a list of (row position, frame) pairs is not a frame)
+            return self.ext(v[1][1][2][1 + v[2]])
         if t in ("+", "-", "*", "/", "neg", "**", "cmp", "and", "or", "not", "&", "|", "invert", "tuple", "list", "dict", "set", "comp", "item", "starred"):
             worst = OTHER
             for x in v[1:]:
@@ -279,12 +288,21 @@ class Extent(object):
     def _same_index(self, pos, frame):
         """POS was computed from an index of the same underlying object as `frame` (modulo column / key selection)."""
         def root(x):
-            while isinstance(x, tuple) and x and x[0] in ("sub", "mcall", "attr") :
+            while isinstance(x, tuple) and x and x[0] in ("sub", "mcall", "attr", "item"):
                 if x[0] == "mcall" and x[2] not in ("get", "copy", "dropna"):
+                    break
+                if x[0] == "item":
+                    # a component of the tuples a comprehension builds: follow that component
+                    b = x[1]
+                    if (isinstance(b, tuple) and b[:1] == ("elem",) and isinstance(b[1], tuple) and b[1][:1] == ("comp",) and isinstance(b[1][2], tuple) and b[1][2][:1] == ("tuple",)
+                            and isinstance(x[2], int) and 0 <= x[2] < len(b[1][2]) - 1):
+                        x = b[1][2][1 + x[2]]
+                        continue
                     break
                 x = x[1]
             return x
         src = None
+        pos = root(pos) if isinstance(pos, tuple) and pos[:1] == ("item",) else pos
         for n in sym.walk(pos):
             if n[0] == "mcall" and n[2] == "get_loc":
                 src = n[1]
@@ -318,6 +336,10 @@ class Extent(object):
                     vals.append(e.value)  # (the return of an inlined helper is judged where the caller uses the value)
             for c, _ in (e.graw or ()):
                 vals.append(c)
+            for l_ in (e.loops or ()):
+                it_ = getattr(l_, "iter", None)
+                if isinstance(it_, tuple) and it_ and it_[0] != "while":
+                    vals.append(it_)  # what a loop ranges over decides which rows its body ever sees
             for v in vals:
                 if isinstance(v, tuple):
                     x = self.ext(v)
